@@ -128,6 +128,11 @@ def gen_op(rng, pool, weights=None):
         else:
             cc = _pick(rng, pool["countries"] + ["", ""])
             seed, use_registry, pinned = rng.randrange(50), bool(rng.randrange(2)), {}
+        if cc and not pinned and rng.random() < 0.35 and pool["components"].get(cc):
+            bank, branch, acct, _ = _pick(rng, pool["components"][cc])
+            for name, value in (("bank_code", bank), ("branch_code", branch), ("account_code", acct)):
+                if value and rng.random() < 0.5:
+                    pinned = dict(pinned, **{name: value})
         kind = "iban_random" if rng.random() < 0.7 else "bban_random"
         return [kind, cc, seed, use_registry, pinned], None
     if fam == "bic":
